@@ -24,19 +24,21 @@ OPTS = {'quick': {'max_paths': 400}, 'thorough': {'max_paths': 4000}}
 UNARY = ['copy', 'clone', 'shallow_copy', 'conj', 'conj_blocks', 'flip_signature', 'flip_charges', 'switch_signature', 'transpose', 'T', 'H',
          'moveaxis', 'consume_transpose', 'fuse_hard', 'fuse_meta', 'fuse_unfuse', 'fuse_meta_to_hard', 'add_leg', 'add_remove_leg', 'drop_leg_history',
          'mul', 'rmul', 'truediv', 'neg', 'pow', 'abs', 'real', 'imag', 'exp', 'reciprocal', 'norm', 'norm_inf', 'to_numpy', 'to_dense', 'to_nonsymmetric',
-         'to_dict0', 'to_dict1', 'to_dict2', 'to_from_dict', 'save_to_dict', 'get_legs', 'get_shape', 'getitem', 'trace', 'svd', 'qr', 'svd_with_truncation',
+         'to_dict0', 'to_dict1', 'to_dict2', 'to_from_dict', 'legacy_from_dict', 'save_to_dict', 'get_legs', 'get_shape', 'getitem', 'trace', 'svd', 'qr', 'svd_with_truncation',
          'svdvals', 'to_number', 'is_consistent', 'remove_zero_blocks', 'str', 'contains', 'swap_gate', 'swap_gate_charge', 'detach', 'to', 'requires_grad',
          'split_combine', 'ncon_self', 'einsum_self', 'eigh', 'diag_roundtrip', 'lt', 'bitwise_not', 'sqrt', 'rsqrt', 'truncation_mask', 'entropy_skip']
 BINARY = ['add', 'sub', 'add_amplitudes', 'tensordot', 'tensordot_fc', 'tensordot_nf', 'tensordot_f2m', 'matmul', 'vdot', 'broadcast', 'apply_mask', 'ncon',
           'einsum', 'block', 'allclose', 'are_independent', 'fkron', 'tensordot_diag', 'vdot_fused_mismatch', 'add_fused_mismatch', 'legs_union', 'leg_product']
 INPLACE = ['copy_then_set_block', 'copy_then_setitem', 'clone_then_set_block', 'copy_mutate_copy', 'shallow_then_setitem_documented']
-MPS_OPS = ['copy', 'clone', 'shallow_copy', 'add', 'sub', 'mul', 'neg', 'matmul', 'conj', 'transpose', 'H', 'reverse_sites', 'to_tensor', 'measure_overlap',
+MPS_OPS = ['legacy_dict', 'copy', 'clone', 'shallow_copy', 'add', 'sub', 'mul', 'neg', 'matmul', 'conj', 'transpose', 'H', 'reverse_sites', 'to_tensor', 'measure_overlap',
            'measure_mpo', 'measure_1site', 'measure_2site', 'to_dict', 'copy_then_canonize', 'copy_then_orthogonalize', 'copy_then_setitem',
            'env_setup', 'get_bond_dimensions', 'on_bra', 'multiply_mode', 'add_amplitudes', 'norm', 'is_canonical', 'truediv']
 FUNCTIONS = ['Tensor: ' + ', '.join(UNARY + BINARY), 'in-place API: ' + ', '.join(INPLACE), 'MPS/MPO: ' + ', '.join(MPS_OPS), 'Lattice/Peps containers: copy/clone/shallow_copy/apply_gate_ args']
 BOUNDS = {'quick': {'structures': 'catalogue rank 2..3, dims 1,2; one operation per case; covering array (sym x op x lazy x dtype)'},
           'thorough': {'structures': 'catalogue rank 2..4; pairs of operations'}}
 SYMS = list(cat.SYMS)
+FLOAT_XVAL = {'quick': 1.0, 'thorough': 1.0}     # LAPACK-level aliasing (overwrite flags) is visible on the real backend only
+FLOAT_NUMERIC_IS_VIOLATION = True
 
 
 def cases(tier, seed):
@@ -50,11 +52,11 @@ def cases(tier, seed):
                 c.update(kind=group, tier=tier, id=f'{group}-{rep}-{i}', seed=hash_seed(seed, 'C15', group, rep, i))
                 out.append(c)
     for rep in range(reps):
-        for i, row in enumerate(cat.covering({'op': MPS_OPS, 'sym': ['dense', 'Z2', 'U1'], 'N': [2, 3], 'obj': ['mps', 'mpo']}, seed=seed * 7 + rep, strength=2)):
+        for i, row in enumerate(cat.covering({'op': MPS_OPS, 'sym': ['dense', 'Z2', 'U1'], 'N': [2, 3], 'obj': ['mps', 'mpo'], 'central': ['none', 'none', 'inner', 'edge']}, seed=seed * 7 + rep, strength=2)):
             c = dict(row)
             c.update(kind='mps', tier=tier, id=f'mps-{rep}-{i}', seed=hash_seed(seed, 'C15', 'mps', rep, i))
             out.append(c)
-    for i, g in enumerate(['peps_copy', 'peps_clone', 'peps_shallow', 'peps_apply_gate_args', 'peps_to_tensor', 'peps_add']):
+    for i, g in enumerate(['peps_copy', 'peps_clone', 'peps_shallow', 'peps_apply_gate_args', 'peps_to_tensor', 'peps_add', 'peps_copy_patch', 'peps_clone_patch', 'peps_product_args', 'peps_dict_args', 'double_apply_gate_on_ket']):
         for sym in ('dense', 'Z2', 'U1'):
             out.append({'kind': 'peps', 'op': g, 'sym': sym, 'tier': tier, 'id': f'peps-{g}-{sym}', 'seed': hash_seed(seed, 'C15', g, sym)})
     return out
@@ -95,6 +97,50 @@ class Snap:
         ctx.check(t.struct == self.struct and t.slices == self.slices and tuple(t.hfs) == self.hfs and tuple(t.mfs) == self.mfs and tuple(t.trans) == self.trans,
                   f'{label}:structure')
         ctx.eq(list(t._data), self.elems, f'{label}:values')
+
+
+class DSnap:
+    """observable value of a plain container argument (dict / list / tuple of scalars, arrays, tensors, nested containers)"""
+    def __init__(self, d):
+        self.d = d
+        self.snap = self._snap(d)
+
+    def _snap(self, x):
+        import yastn
+        if isinstance(x, dict):
+            return ('dict', [(k, self._snap(v)) for k, v in x.items()])
+        if isinstance(x, (list, tuple)) and not hasattr(x, '_fields'):
+            return ('list' if isinstance(x, list) else 'tuple', [self._snap(v) for v in x])
+        if isinstance(x, yastn.Tensor):
+            return ('tensor', x, Snap(x))
+        if isinstance(x, np.ndarray):
+            return ('array', x, list(x.flat), x.shape, x.dtype)
+        return ('value', x)
+
+    def _verify(self, ctx, x, sn, label):
+        kind = sn[0]
+        if kind == 'dict':
+            ctx.check(isinstance(x, dict) and list(x.keys()) == [k for k, _ in sn[1]], f'{label}:dict-keys-unchanged', (list(x.keys()) if isinstance(x, dict) else type(x), [k for k, _ in sn[1]]))
+            for k, c in sn[1]:
+                self._verify(ctx, x[k], c, label)
+        elif kind in ('list', 'tuple'):
+            ctx.check(isinstance(x, list if kind == 'list' else tuple) and len(x) == len(sn[1]), f'{label}:sequence-unchanged')
+            for v, c in zip(x, sn[1]):
+                self._verify(ctx, v, c, label)
+        elif kind == 'tensor':
+            ctx.check(x is sn[1], f'{label}:entry-object-replaced', 'a tensor held by the argument was replaced by another object')
+            sn[2].verify(ctx, label)
+        elif kind == 'array':
+            ctx.check(x is sn[1] and x.shape == sn[3] and x.dtype == sn[4], f'{label}:array-identity/shape/dtype')
+            now = list(x.flat)
+            if not all(a is b for a, b in zip(now, sn[2])):
+                ctx.eq(now, sn[2], f'{label}:array-values-unchanged')
+        else:
+            same = (x is sn[1]) or (type(x) == type(sn[1]) and x == sn[1])
+            ctx.check(bool(same), f'{label}:value-unchanged', (repr(x)[:60], repr(sn[1])[:60]))
+
+    def verify(self, ctx, label):
+        self._verify(ctx, self.d, self.snap, label)
 
 
 def _mk(ctx, rng, spec, name, rank, cfg, **kw):
@@ -189,7 +235,20 @@ def k_unary(ctx, spec):
         elif op == 'to_dense': r = a.to_dense()
         elif op == 'to_nonsymmetric': r = a.to_nonsymmetric()
         elif op.startswith('to_dict'): r = a.to_dict(level=int(op[-1]))
-        elif op == 'to_from_dict': r = yastn.from_dict(a.to_dict(level=rng.choice([0, 1, 2])))
+        elif op == 'to_from_dict':
+            d = a.to_dict(level=rng.choice([0, 1, 2]))
+            ds = DSnap(d)
+            r = yastn.from_dict(d)
+            r2 = yastn.Tensor.from_dict(d)
+            ds.verify(ctx, 'from_dict:argument')
+        elif op == 'legacy_from_dict':
+            import warnings
+            with warnings.catch_warnings():
+                warnings.simplefilter('ignore')
+                d = a.save_to_dict()
+                ds = DSnap(d)
+                r = yastn.load_from_dict(config=cfg, d=d)
+            ds.verify(ctx, 'load_from_dict:argument')
         elif op == 'save_to_dict':
             import warnings
             with warnings.catch_warnings():
@@ -441,6 +500,21 @@ def k_mps(ctx, spec):
     a, ops = _mk_mps(ctx, spec, 'a', N, obj)
     b, _ = _mk_mps(ctx, spec, 'b', N, obj)
     H, _ = _mk_mps(ctx, spec, 'h', N, 'mpo')
+    central = spec.get('central', 'none')
+    if central != 'none':
+        # a central block (as left by orthogonalize_site_) at an inner bond or at a chain end: symbolic matrix with matching legs
+        rngc = rng_of(spec)
+        if central == 'inner':
+            k = rngc.randrange(N - 1)
+            pC, vl, vr = (k, k + 1), a[k].get_legs(2).conj(), a[k + 1].get_legs(0).conj()
+        elif rngc.random() < 0.5:
+            pC, vl, vr = (-1, 0), a[0].get_legs(0), a[0].get_legs(0).conj()
+        else:
+            pC, vl, vr = (N - 1, N), a[N - 1].get_legs(2).conj(), a[N - 1].get_legs(2)
+        C = yastn.zeros(config=a.config, legs=[vl, vr])
+        ctx.fill(C, 'c', 'real')
+        a.pC = pC
+        a.A[pC] = C
     sa, sb, sH = MSnap(a), MSnap(b), MSnap(H)
     x = ctx.scalar('x', 'real', lo=0.5, hi=3)
     try:
@@ -464,7 +538,19 @@ def k_mps(ctx, spec):
         elif op == 'measure_mpo': r = mps.measure_mpo(a, H, b) if obj == 'mps' else mps.measure_overlap(a, b)
         elif op == 'measure_1site': r = mps.measure_1site(a, ops.z(), a) if obj == 'mps' else None
         elif op == 'measure_2site': r = mps.measure_2site(a, ops.z(), ops.z(), a, bonds='<') if obj == 'mps' else None
-        elif op == 'to_dict': r = mps.MpsMpoOBC.from_dict(a.to_dict(level=0))
+        elif op == 'to_dict':
+            d = a.to_dict(level=0)
+            ds = DSnap(d)
+            r = mps.MpsMpoOBC.from_dict(d)
+            ds.verify(ctx, 'MpsMpoOBC.from_dict:argument')
+        elif op == 'legacy_dict':
+            import warnings
+            with warnings.catch_warnings():
+                warnings.simplefilter('ignore')
+                d = a.save_to_dict()
+                ds = DSnap(d)
+                r = mps.load_from_dict(a.config, d)
+            ds.verify(ctx, 'mps.load_from_dict:argument')
         elif op == 'env_setup':
             env = mps.Env(a, [H, b]) if obj == 'mps' else mps.Env(a, b)
             env.setup_(to='first')
@@ -488,6 +574,10 @@ def k_mps(ctx, spec):
             ctx.skip('n/a')
     except yastn.YastnError:
         pass
+    except Exception:
+        if central == 'none':
+            raise
+        # operations that do not support a state with a central block may fail in any way; they still must not modify it
     sa.verify(ctx, f'mps.{op}:a')
     sb.verify(ctx, f'mps.{op}:b')
     sH.verify(ctx, f'mps.{op}:H')
@@ -528,6 +618,92 @@ def k_peps(ctx, spec):
             t.set_block(ts=k, Ds=t.struct.D[0], val='zeros')
             c[s0] = t
         verify(op)
+    elif op in ('peps_copy_patch', 'peps_clone_patch'):
+        # a Peps carrying a pending patch (move_to_patch, as between a gate application and apply_patch in evolution_step_)
+        sites = psi.sites()
+        psi.move_to_patch(sites[:1] if spec['seed'] % 2 else sites)
+        snaps = {s: Snap(psi[s]) for s in sites}
+        ids = {s: psi[s] for s in sites}
+        c = psi.copy() if op == 'peps_copy_patch' else psi.clone()
+        verify(f'{op}: source after the call')
+        csn = {s: Snap(c[s]) for s in sites}
+        # in-place tensor API on every tensor the copy holds must not reach the source ...
+        for s in sites:
+            t = c[s]
+            k = t.struct.t[0]
+            t[k] = t[k] * 0 + 7
+        verify(f'{op}: source after in-place change of the tensors of the copy')
+        c.apply_patch()
+        verify(f'{op}: source after apply_patch of the copy')
+        # ... and vice versa
+        c2 = psi.copy() if op == 'peps_copy_patch' else psi.clone()
+        csn = {s: Snap(c2[s]) for s in sites}
+        for s in sites:
+            t = psi[s]
+            k = t.struct.t[0]
+            t[k] = t[k] * 0 + 5
+        psi.apply_patch()
+        for s in sites:
+            csn[s].verify(ctx, f'{op}: copy after in-place change of the source:{s}')
+    elif op == 'peps_product_args':
+        # product_peps with a Tensor and with a dict of rank-1 / rank-2 (with ancilla) vectors: the arguments keep their value
+        v1 = ops.vec_z(val=1)
+        v2 = ops.vec_z(val=-1).add_leg(s=-1)
+        sv = Snap(v1)
+        fpeps.product_peps(geo, v1)
+        sv.verify(ctx, 'product_peps(Tensor):argument')
+        d = {s: (v1 if i % 2 == 0 else v2) for i, s in enumerate(geo.sites())}
+        ds = DSnap(d)
+        fpeps.product_peps(geo, d)
+        ds.verify(ctx, 'product_peps(dict):argument')
+    elif op == 'peps_dict_args':
+        import warnings
+        d = psi.to_dict(level=rng_of(spec).choice([0, 1, 2]))
+        ds = DSnap(d)
+        r = fpeps.Peps.from_dict(d)
+        r = fpeps.load_from_dict(cfg, d)
+        ds.verify(ctx, 'Peps.from_dict:argument')
+        verify('to_dict/from_dict')
+        with warnings.catch_warnings():
+            warnings.simplefilter('ignore')
+            d = psi.save_to_dict()
+            ds = DSnap(d)
+            r = fpeps.load_from_dict(cfg, d)
+        ds.verify(ctx, 'fpeps.load_from_dict(legacy dict):argument')
+        verify('save_to_dict/load_from_dict')
+        # the older legacy layout names the geometry under the key 'lattice'
+        d2 = dict(d)
+        d2['lattice'] = {'SquareLattice': 'square'}[d2.pop('type')]
+        ds = DSnap(d2)
+        r = fpeps.load_from_dict(cfg, d2)
+        ds.verify(ctx, "fpeps.load_from_dict(legacy dict with 'lattice' key):argument")
+    elif op == 'double_apply_gate_on_ket':
+        # DoublePepsTensor.apply_gate_on_ket returns a new object; the receiver (incl. its pending charge swaps) keeps its value
+        from yastn.tn.fpeps._doublePepsTensor import DoublePepsTensor
+        fsym = symn if symn != 'dense' else 'Z2'
+        fcfg = cat.make_config(fsym, fermionic=True)
+        fops = yastn.operators.SpinlessFermions(sym=fsym, backend=fcfg.backend)
+        fpsi = fpeps.product_peps(geo, fops.vec_n(val=1))
+        s0 = geo.sites()[0]
+        A = fpsi[s0].copy()
+        ctx.fill(A, 'dk', 'real')
+        one = (1,) if fcfg.sym.NSYM == 1 else tuple(1 for _ in range(fcfg.sym.NSYM))
+        for swaps in ({}, {'k4': one}, {'k4': one, 'b4': one, 'k1': one}):
+            dt = DoublePepsTensor(bra=A, ket=A, swaps=swaps)
+            sA = Snap(A)
+            before = (dict(dt.swaps), dt.bra, dt.ket, dt.op, dt.trans)
+            g = fops.cp().add_leg(axis=2, s=1)        # operator with an auxiliary leg, as produced by splitting a two-site gate
+            sg = Snap(g)
+            r = dt.apply_gate_on_ket(g, dirn='l')
+            ctx.check(r is not dt, 'apply_gate_on_ket returns a new object')
+            ctx.check(dt.swaps == before[0] and dt.bra is before[1] and dt.ket is before[2] and dt.op is before[3] and dt.trans == before[4],
+                      'apply_gate_on_ket:receiver-unchanged', (dt.swaps, before[0]))
+            sA.verify(ctx, 'apply_gate_on_ket:ket tensor')
+            sg.verify(ctx, 'apply_gate_on_ket:gate')
+            for mk in ('copy', 'clone'):
+                c = getattr(dt, mk)()
+                c.add_charge_swaps_(one, axes=['k2'])
+                ctx.check(dt.swaps == before[0], f'DoublePepsTensor.{mk}: in-place change of the copy leaves the source', (dt.swaps, before[0]))
     elif op == 'peps_apply_gate_args':
         g = fpeps.gates.gate_nn_Ising(0.1, 0.2, ops.I(), ops.z(), bond=geo.bonds()[0]) if hasattr(fpeps.gates, 'gate_nn_Ising') else None
         if g is None:
